@@ -110,6 +110,11 @@ class TupleV(V):
         return f"Tuple{list(self.items)!r}"
 
 
+class IterTupleV(TupleV):
+    """iter(<sequence>): yields the items of the sequence in order, and - unlike the sequence - is true even when there is
+    nothing left to yield (an `if not iter(xs)` guard never fires)."""
+
+
 class NTupleV(TupleV):
     """An instance of a typing.NamedTuple class: a tuple whose items can also be read by field name."""
 
@@ -630,6 +635,8 @@ class Interp:
             if v.length.is_const():
                 return ("t",) if v.length.const != 0 else ("f",)
             return ("not", ("c", eq(v.length, 0)))
+        if isinstance(v, (IterTupleV, GenV)):
+            return ("t",)       # iterator objects are true whatever they still hold
         if isinstance(v, TupleV):
             return ("t",) if v.items else ("f",)
         if isinstance(v, (ListV, DictV)):
@@ -1915,8 +1922,11 @@ class Interp:
         if short == "next" and len(args) >= 1 and isinstance(args[0], (TupleV, ListV)) and st.items(args[0]):
             # (only reached as next(iter(<sequence>)): iter() hands the sequence on, so this is its first element)
             return self.val(st, st.items(args[0])[0])
-        if short == "iter" and len(args) == 1 and isinstance(args[0], (TupleV, ListV, GenV)):
-            return self.val(st, args[0])      # (consumed once, in order, by the `for` / unpacking that follows)
+        if short == "iter" and len(args) == 1 and isinstance(args[0], GenV):
+            return self.val(st, args[0])
+        if short == "iter" and len(args) == 1 and isinstance(args[0], (TupleV, ListV)):
+            # (consumed once, in order, by the `for` / unpacking that follows)
+            return self.val(st, IterTupleV(st.items(args[0])))
         if short in ("list", "tuple") and len(args) == 1 and isinstance(args[0], GenV):
             res = []
             for o in self.consume(args[0], st, node):
